@@ -244,9 +244,18 @@ func (e *Engine) snapshotBytes(s *bytesV) *bytesV { return e.snapshot(s) }
 // exitEvent: the process exits (log.Fatal, os.Exit). The harness may have
 // registered a handler with rt.OnExit; by default it is a path-ending panic.
 func (e *Engine) exitEvent(why string) {
-	if h, ok := e.objs["onexit"]; ok {
-		e.callAny(nil, h.(value), []value{constStrV(why)}, 0)
+	h, ok := e.objs["onexit"]
+	if !ok {
+		e.rtPanic("process exit: " + why)
+	}
+	e.callAny(nil, h.(value), []value{constStrV(why)}, 0)
+	// the process is gone: every goroutine of the program stops; only the harness
+	// thread (T0) goes on, to evaluate its assertions
+	for _, t := range e.threads[1:] {
+		t.killed = true
+	}
+	if e.cur.id == 0 {
 		e.end("exit", why)
 	}
-	e.rtPanic("process exit: " + why)
+	e.block(func() bool { return false }, "process exited ("+why+")")
 }
